@@ -196,6 +196,12 @@ func (r *FnRun) exec(st *State, fr *frame, b *ssa.BasicBlock, i int) {
 			return
 		}
 		ins := b.Instrs[i]
+		if fr.top && r.fc != nil && r.hasCuts() {
+			if cs := r.cutsAt(fr, ins); cs != nil && st.skipCut != ins {
+				r.atCut(st, fr, b, i, ins, cs)
+				return
+			}
+		}
 		switch x := ins.(type) {
 		case *ssa.DebugRef:
 		case *ssa.Alloc:
@@ -1578,4 +1584,265 @@ func (r *FnRun) runDefers(st *State, fr *frame, k func(*State)) {
 	r.doCallWith(st, fr, d.instr, d.call, d.fnv, d.args, func(st2 *State, _ *V) {
 		r.runDefers(st2, fr, k)
 	})
+}
+
+
+// ---- cut points ----
+
+func (r *FnRun) hasCuts() bool {
+	if r.cutInit {
+		return len(r.cutMap) > 0
+	}
+	r.cutInit = true
+	r.cutMap = map[ssa.Instruction][]*Clause{}
+	r.cutDone = map[ssa.Instruction]map[string]int{}
+	var cuts []*Clause
+	for _, c := range r.fc.Clauses {
+		if c.Kind == "cut" {
+			cuts = append(cuts, c)
+		}
+	}
+	if len(cuts) == 0 {
+		return false
+	}
+	// static call sites by callee name, in source order
+	sites := map[string][]ssa.Instruction{}
+	for _, b := range r.fn.Blocks {
+		for _, ins := range b.Instrs {
+			call, ok := ins.(*ssa.Call)
+			if !ok {
+				continue
+			}
+			name := r.calleeName(&call.Call)
+			if name != "" {
+				sites[name] = append(sites[name], ins)
+			}
+		}
+	}
+	for _, v := range sites {
+		sort.SliceStable(v, func(i, j int) bool { return v[i].Pos() < v[j].Pos() })
+	}
+	for _, c := range cuts {
+		v := sites[c.Name]
+		if c.N < 1 || c.N > len(v) {
+			r.errs = append(r.errs, fmt.Sprintf("%s:%d: cut anchor %s@%d not found (%d call sites)", r.fc.File, c.Line, c.Name, c.N, len(v)))
+			continue
+		}
+		// the cut sits before the pure instructions (loads, address computations, conversions) that feed the call,
+		// so that the call's operands are computed after it
+		at := v[c.N-1]
+		blk := at.Block()
+		idx := 0
+		for i, ins := range blk.Instrs {
+			if ins == at {
+				idx = i
+			}
+		}
+		for idx > 0 {
+			pure := false
+			switch blk.Instrs[idx-1].(type) {
+			case *ssa.UnOp, *ssa.FieldAddr, *ssa.IndexAddr, *ssa.Field, *ssa.Extract, *ssa.MakeInterface, *ssa.ChangeType,
+				*ssa.Convert, *ssa.BinOp, *ssa.DebugRef, *ssa.ChangeInterface:
+				pure = true
+				if u, ok := blk.Instrs[idx-1].(*ssa.UnOp); ok && u.Op == token.ARROW {
+					pure = false
+				}
+			}
+			if !pure {
+				break
+			}
+			idx--
+		}
+		at = blk.Instrs[idx]
+		r.cutMap[at] = append(r.cutMap[at], c)
+	}
+	return len(r.cutMap) > 0
+}
+
+// calleeName names a call site the way atcall anchors do.
+func (r *FnRun) calleeName(c *ssa.CallCommon) string {
+	if c.IsInvoke() {
+		return ifaceMethodKey(c)
+	}
+	f := c.StaticCallee()
+	if f == nil {
+		return ""
+	}
+	name := f.String()
+	if r.eng.isRepoPkg(pkgOfFn(f)) {
+		name = r.eng.relName(f)
+	} else if i := strings.LastIndex(name, "/"); i >= 0 && strings.HasPrefix(name, "(*") {
+		name = "(*" + name[i+1:]
+	} else if i >= 0 {
+		name = name[i+1:]
+	}
+	return name
+}
+
+func (r *FnRun) cutsAt(fr *frame, ins ssa.Instruction) []*Clause { return r.cutMap[ins] }
+
+func (r *FnRun) atCut(st *State, fr *frame, b *ssa.BasicBlock, i int, ins ssa.Instruction, cs []*Clause) {
+	anchor := fmt.Sprintf("cut %s@%d", cs[0].Name, cs[0].N)
+	for _, c := range cs {
+		t, err := r.evalClause(st, fr, c, nil, "cut")
+		if err != nil {
+			r.errs = append(r.errs, err.Error())
+			continue
+		}
+		r.oblige(st, "cut", lbl(c, anchor), c.Tags, t, fmt.Sprintf("%s:%d", c.fileOr(fr), c.Line), anchor)
+	}
+	pending := false
+	for _, ds := range st.deferStacks {
+		if len(ds) != 0 {
+			pending = true
+		}
+	}
+	if pending {
+		r.errs = append(r.errs, fmt.Sprintf("%s: %s reached with pending defers (%s)", r.relName, anchor, strings.Join(st.trail, " > ")))
+		return
+	}
+	if len(st.active) != 0 {
+		for _, on := range st.active {
+			if on {
+				r.errs = append(r.errs, fmt.Sprintf("%s: %s lies inside a loop", r.relName, anchor))
+				return
+			}
+		}
+	}
+	// call ordinals used by anchors after the cut must not depend on the path taken to it
+	ords := map[string]int{}
+	for k, v := range st.callOrd {
+		ords[k] = v
+	}
+	if prev, done := r.cutDone[ins]; done {
+		for _, c := range r.fc.Clauses {
+			if c.Kind == "atcall" && prev["atcall:"+c.Name] != ords["atcall:"+c.Name] {
+				r.errs = append(r.errs, fmt.Sprintf("%s: %s: paths disagree on the ordinal of %s", r.relName, anchor, c.Name))
+			}
+		}
+		for _, g := range r.fc.Ghosts {
+			if g.Callee != "" && prev[g.Callee] != ords[g.Callee] {
+				r.errs = append(r.errs, fmt.Sprintf("%s: %s: paths disagree on the ordinal of %s", r.relName, anchor, g.Callee))
+			}
+		}
+		return
+	}
+	r.cutDone[ins] = ords
+	g := r.genericState(st)
+	for _, c := range cs {
+		t, err := r.evalClause(g, fr, c, nil, "cut")
+		if err != nil {
+			continue
+		}
+		g.assume(t)
+	}
+	g.trail = []string{anchor}
+	g.skipCut = ins
+	r.exec(g, fr, b, i)
+}
+
+// genericState: the entry facts, every register, local and heap component unknown (well-typed), the trace and
+// allocation counter advanced since entry.
+func (r *FnRun) genericState(st *State) *State {
+	g := r.entry.clone()
+	g.stack = st.stack
+	g.depth = st.depth
+	g.prev = st.prev
+	g.callOrd = map[string]int{}
+	for k, v := range st.callOrd {
+		g.callOrd[k] = v
+	}
+	g.havocAllHeap(map[string]bool{"ev.kind": true, "ev.a0": true, "ev.a1": true, "ev.a2": true, "ev.a3": true, "ev.a4": true, "ev.a5": true,
+		"ev.a6": true, "ev.a7": true, "ev.a8": true, "ev.a9": true, "ev.a10": true, "ev.a11": true, "ncall": true, "ncallr": true, "nrecv": true, "ctxdone": true})
+	g.eventsAdvance()
+	g.ctxDoneAdvance()
+	g.bumpAlloc()
+	type kv struct {
+		k ssa.Value
+		n string
+	}
+	var regs []kv
+	for k := range st.regs {
+		if _, ok := g.regs[k]; !ok {
+			regs = append(regs, kv{k, k.Name()})
+		}
+	}
+	sort.Slice(regs, func(i, j int) bool { return regs[i].n < regs[j].n })
+	for _, x := range regs {
+		v := st.regs[x.k]
+		if v == nil {
+			continue
+		}
+		if v.K == KLoc && v.L != nil && v.L.Cell != nil {
+			g.regs[x.k] = v
+			continue
+		}
+		if v.Fn != nil {
+			nv := *v
+			nv.Binds = nil
+			for _, bv := range v.Binds {
+				if bv.K == KLoc {
+					nv.Binds = append(nv.Binds, bv)
+				} else {
+					nv.Binds = append(nv.Binds, g.sym("cut.bind", bv.T))
+				}
+			}
+			g.regs[x.k] = &nv
+			continue
+		}
+		func() {
+			defer func() {
+				if recover() != nil {
+					// a value without a first-order shape (iterator etc.): left undefined; use after the cut is an error
+				}
+			}()
+			g.regs[x.k] = g.sym("cut."+x.n, x.k.Type())
+		}()
+	}
+	var cells []*ssa.Alloc
+	for a := range st.cells {
+		cells = append(cells, a)
+	}
+	sort.Slice(cells, func(i, j int) bool { return cells[i].Pos() < cells[j].Pos() })
+	for _, a := range cells {
+		if p := r.paramSpill(a); p != nil {
+			if pv, ok := g.regs[p]; ok {
+				g.cells[a] = pv
+				continue
+			}
+		}
+		g.cells[a] = g.sym("cut."+a.Comment, a.Type().Underlying().(*types.Pointer).Elem())
+	}
+	return g
+}
+
+// paramSpill: the parameter whose value the local cell holds for the whole activation (the cell is only ever
+// written by the entry spill of that parameter and only read otherwise), or nil.
+func (r *FnRun) paramSpill(a *ssa.Alloc) *ssa.Parameter {
+	var p *ssa.Parameter
+	refs := a.Referrers()
+	if refs == nil {
+		return nil
+	}
+	for _, u := range *refs {
+		switch x := u.(type) {
+		case *ssa.Store:
+			if x.Addr != a || p != nil {
+				return nil
+			}
+			pp, ok := x.Val.(*ssa.Parameter)
+			if !ok {
+				return nil
+			}
+			p = pp
+		case *ssa.UnOp:
+			if x.Op != token.MUL {
+				return nil
+			}
+		case *ssa.DebugRef:
+		default:
+			return nil
+		}
+	}
+	return p
 }
